@@ -156,6 +156,62 @@ def inv_6_5(d):
     d["version"] = 5
 
 
+def inv_5_4(d):
+    for c in _conns(d): c.pop("id", None)
+    if d["server_conn"].get("via"): d["server_conn"]["via"].pop("id", None)
+    d["version"] = 4
+
+
+def inv_4_300(d): d["version"] = [3, 0, 0]
+
+
+def inv_300_200(d):
+    d["client_conn"].pop("mitmcert", None); d["server_conn"].pop("tls_version", None); d["version"] = [2, 0, 0]
+
+
+def _wrap(a): return {"address": a, "use_ipv6": False}
+
+
+def inv_200_100(d):
+    cc, sc = d["client_conn"], d["server_conn"]
+    cc["address"] = _wrap(cc.get("address")); sc["address"] = _wrap(sc.get("address")); sc["source_address"] = _wrap(sc.get("source_address"))
+    if sc.get("ip_address"): sc["ip_address"] = _wrap(sc["ip_address"])
+    d["version"] = [1, 0, 0]
+
+
+def inv_100_019(d): d["version"] = [0, 19]
+
+
+def inv_019_018(d):
+    if d.get("request"):
+        d["request"]["stickyauth"] = False; d["request"]["stickycookie"] = False
+    for k_ in ("sni", "alpn_proto_negotiated", "cipher_name", "tls_version"): d["client_conn"].pop(k_, None)
+    d["server_conn"].pop("alpn_proto_negotiated", None)
+    d.pop("mode", None); d.pop("metadata", None); d["version"] = [0, 18]
+
+
+def inv_018_017(d):
+    d["server_conn"]["peer_address"] = d["server_conn"].pop("ip_address", None); d.pop("marked", None); d["version"] = [0, 17]
+
+
+# (major, minor) -> the inverse that produces a state of that format from its successor's
+TUPLE_CHAIN = [((3, 0), inv_4_300), ((2, 0), inv_300_200), ((1, 0), inv_200_100), ((0, 19), inv_100_019), ((0, 18), inv_019_018), ((0, 17), inv_018_017)]
+
+
+def _bytes_keys(o, top=True):
+    """what a Python-2 era file holds: bytes keys throughout (dict values only), bytes type/id/first_line_format/error.msg"""
+    if not isinstance(o, dict): return o
+    out = {(k.encode() if isinstance(k, str) else k): _bytes_keys(v, False) for k, v in o.items()}
+    if top:
+        for k_ in (b"type", b"id"):
+            if isinstance(out.get(k_), str): out[k_] = out[k_].encode()
+        if isinstance(out.get(b"request"), dict) and isinstance(out[b"request"].get(b"first_line_format"), str):
+            out[b"request"][b"first_line_format"] = out[b"request"][b"first_line_format"].encode()
+        if isinstance(out.get(b"error"), dict) and isinstance(out[b"error"].get(b"msg"), str):
+            out[b"error"][b"msg"] = out[b"error"][b"msg"].encode()
+    return out
+
+
 SHAPE_INVERSES = {10: inv_10_9, 9: inv_9_8, 8: inv_8_7, 7: inv_7_6, 6: inv_6_5}
 
 
@@ -189,16 +245,16 @@ class Check(PropertyCheck):
                   "whole table + general lemmas): every historical version key reaches the current format in a strictly "
                   "version-increasing chain (the migrate loop terminates from every version value whatsoever), the current "
                   "version is a fixed point, unknown versions are rejected with 'please update' exactly for larger "
-                  "integers. The field surgery of the sixteen converters for integer formats 5..20 is modelled over the tnetstring value type of C36 (Model/C38_Conv.lean) and proved to write exactly the next version (conv_writes_next_version), to leave every top-level key outside a stated per-converter set untouched (conv_frame; request/id/type/error/intercepted never change: request_preserved; response only by 13->14), plus marked_migration, mode_dropped, proxy_mode_added, state_dropped, timestamp_created_from_request; the older formats 5..9 (convOld: ssl->tls renames, tls_extensions, trailers, first_line_format/authority/is_replay, the 9->10 connection rebuild incl. the nested via connection) with convOld_writes_next_version, convOld_frame, old_identity_preserved, old_request_preserved (only 7->8 and 8->9 touch the request), request_fields_8_9, trailers_added_7_8, tls_renamed_5_6; 18->19 (renames, defaults, the UTF-8/backslashreplace decode of host bytes built on the C35 decoder transcription, sni=True repair) with conv_18_19_spec, client_frame_18_19/client_renames_18_19, server_frame_18_19/server_renames_18_19, host_decode_valid_utf8/host_decode_ascii (a valid-UTF-8 host is the same text afterwards) and host_decode_escape; the two converters with PROCESS-GLOBAL tables are modelled with their tables as explicit state (Model/C38_State.lean): 11->12 with `_websocket_handshakes` (handshake_stored, ws_takes_stored_handshake, ws_without_handshake_dummy, plain_is_stateless, table_frame_11_12 and, by induction over any run of records, stored_until_consumed) and 4->5 with the connection-id tables and the uuid supply as a parameter (client_id_is_recorded_id, ids_stable_4_5, ids_stable_over_run); the whole modelled chain 12->21 keeps the request and arrives at version 21 (steps_request_preserved by induction over any number of converter steps, chain_request_preserved); each step of the real converters is compared byte for byte (re-encoded tnetstring) with the Lean converter. Whole-chain behaviour is validated differentially: all shipped historical dumps, "
+                  "integers. The field surgery of the sixteen converters for integer formats 5..20 is modelled over the tnetstring value type of C36 (Model/C38_Conv.lean) and proved to write exactly the next version (conv_writes_next_version), to leave every top-level key outside a stated per-converter set untouched (conv_frame; request/id/type/error/intercepted never change: request_preserved; response only by 13->14), plus marked_migration, mode_dropped, proxy_mode_added, state_dropped, timestamp_created_from_request; the older formats 5..9 (convOld: ssl->tls renames, tls_extensions, trailers, first_line_format/authority/is_replay, the 9->10 connection rebuild incl. the nested via connection) with convOld_writes_next_version, convOld_frame, old_identity_preserved, old_request_preserved (only 7->8 and 8->9 touch the request), request_fields_8_9, trailers_added_7_8, tls_renamed_5_6; 18->19 (renames, defaults, the UTF-8/backslashreplace decode of host bytes built on the C35 decoder transcription, sni=True repair) with conv_18_19_spec, client_frame_18_19/client_renames_18_19, server_frame_18_19/server_renames_18_19, host_decode_valid_utf8/host_decode_ascii (a valid-UTF-8 host is the same text afterwards) and host_decode_escape; the two converters with PROCESS-GLOBAL tables are modelled with their tables as explicit state (Model/C38_State.lean): 11->12 with `_websocket_handshakes` (handshake_stored, ws_takes_stored_handshake, ws_without_handshake_dummy, plain_is_stateless, table_frame_11_12 and, by induction over any run of records, stored_until_consumed) and 4->5 with the connection-id tables and the uuid supply as a parameter (client_id_is_recorded_id, ids_stable_4_5, ids_stable_over_run); the release-numbered formats 0.17..3.0 (Model/C38_Tuple.lean: convert_unicode with its recursive key conversion and strict UTF-8 decode of type/id/first_line_format/error.msg, the address unwrapping of 1.0->2.0, 2.0->3.0, 3.0->4) with tuple_writes_next_version and tuple_frame_1_2_3; the whole modelled chain 12->21 keeps the request and arrives at version 21 (steps_request_preserved by induction over any number of converter steps, chain_request_preserved); each step of the real converters is compared byte for byte (re-encoded tnetstring) with the Lean converter. Whole-chain behaviour is validated differentially: all shipped historical dumps, "
                   "synthetic states downgraded by inverse converters to each version 10..20, current states, and unknown "
                   "future versions go through the real migrate_flow / FlowReader / FlowWriter.")
     level_note = ("partial: proved are the version chain, the loop and the per-converter field facts for formats 4..20 (4->5: uuid4 is a parameter, table keys are compared through their tnetstring encoding "
-                  "- an int and an equal float would differ - and only list-valued addresses are generated: what format 4 wrote for an unconnected server is not known here; 13->14 timestamp repair only for integer timestamps); tuple-version converters "
+                  "- an int and an equal float would differ - and only list-valued addresses are generated: what format 4 wrote for an unconnected server is not known here; 13->14 timestamp repair only for integer timestamps); the six oldest tuple-version converters 0.11..0.16 (bytes keys throughout) "
                   "are validated only (goldens for shipped dumps, inverse-converter "
                   "round trips for versions 10..20). "
                   "trusted: Lean kernel, the AST-based translator (reads `data[\"version\"] = …` in each converter).")
     technique = "Lean 4 proof over a table regenerated from the source (decide +kernel + lemmas) + differential migration runs"
-    rule = ("kinds: wsseq (a run of format-11 records - handshake flows, old websocket flows naming a handshake id, plain flows - through the real convert_11_12 in one process vs the Lean converter with its table, expectations from the roles/ids alone), idseq (a run of format-4 records of a few connections through convert_4_5 with uuid4 replaced by a counter), dumpsplit (a shipped multi-record dump spread over two files read in sequence, optionally another file in between), dumpperm (records of a shipped multi-record dump in another admissible order load as the same flows), conv (one converter step vs the Lean converter), dump (each shipped dumpfile: load, validity, re-save/re-load equality, golden digest), current (random "
+    rule = ("kinds: wsseq (a run of format-11 records - handshake flows, old websocket flows naming a handshake id, plain flows - through the real convert_11_12 in one process vs the Lean converter with its table, expectations from the roles/ids alone), convt (one release-numbered converter step 0.17..3.0 vs the Lean converter, incl. py2-era bytes keys and undecodable text), idseq (a run of format-4 records of a few connections through convert_4_5 with uuid4 replaced by a counter), dumpsplit (a shipped multi-record dump spread over two files read in sequence, optionally another file in between), dumpperm (records of a shipped multi-record dump in another admissible order load as the same flows), conv (one converter step vs the Lean converter), dump (each shipped dumpfile: load, validity, re-save/re-load equality, golden digest), current (random "
             "current-format flows must pass migration unchanged), downgrade (random current flow restricted to what version v "
             "could express, inverse-converted down to v in 10..20, migrated forward, compared), future (unknown versions). "
             "distinct = distinct (kind, parameters); non-trivial = kind != dump-metadata-only.")
@@ -317,6 +373,11 @@ class Check(PropertyCheck):
                 else:
                     yield {"kind": "idseq", "state": canon_in(st),
                            "recs": [{"c": rng.randint(0, 2), "s": rng.randint(0, 2), "via": rng.choice([None, None, 0, 1, 2])} for _ in range(rng.randint(1, 6))]}
+            elif r < 0.24 and st.get("websocket") is None:
+                v = rng.choice([[0, 17], [0, 17], [0, 18], [0, 18], [0, 19], [1, 0], [1, 0], [2, 0], [3, 0]])
+                tw = {(0, 17): ["bytes-keys", "bytes-keys", "bytes-keys-bad", "dup-key", None], (0, 18): ["via-conn", "bytes-keys", "no-request", None],
+                      (0, 19): ["bytes-keys", "bytes-keys-bad", None], (1, 0): ["via-conn", "ip-none", "addr-none", None], (2, 0): ["via-conn", None], (3, 0): [None]}[tuple(v)]
+                yield {"kind": "convt", "v": v, "state": canon_in(st), "tweak": rng.choice(tw)}
             elif r < 0.3:
                 yield {"kind": "current", "state": canon_in(st)}
             elif r < 0.5:
@@ -470,6 +531,15 @@ class Check(PropertyCheck):
             return {"equal": not diff, "diff": diff[:6], "resave": resave}
         if k in ("wsseq", "idseq"):
             return {"steps": self._run_tables(case)}
+        if k == "convt":
+            old2, wire = self._convt_input(case)
+            try:
+                out = compat.converters[tuple(case["v"])](copy.deepcopy(old2))
+            except Exception as e:
+                return {"wire": wire.hex(), "out": None, "exc": f"{type(e).__name__}: {e}"[:120]}
+            ver = out.get("version")
+            return {"wire": wire.hex(), "out": tnetstring.dumps(out).hex(), "version": list(ver) if isinstance(ver, (tuple, list)) else ver,
+                    "str_keys": all(isinstance(k_, str) for k_ in out)}
         if k == "conv":
             old2, wire = self._conv_input(case)
             try:
@@ -589,6 +659,30 @@ class Check(PropertyCheck):
                 compat.uuid = real
                 compat.client_connections.clear(); compat.server_connections.clear()
         return outs
+
+    def _convt_input(self, case):
+        """a state of the shape the release-numbered format (a, b) had (shape only, see SHAPE_INVERSES)"""
+        old, _ = self._conv_input({"v": 5, "state": case["state"]})
+        inv_5_4(old)
+        for key, inv in TUPLE_CHAIN:
+            inv(old)
+            if list(key) == list(case["v"]): break
+        else:
+            raise Skip()
+        t = case.get("tweak")
+        if t == "via-conn":
+            via = copy.deepcopy(old["server_conn"]); via["via"] = None
+            old["server_conn"]["via"] = via
+        elif t == "ip-none": old["server_conn"]["ip_address"] = None
+        elif t == "addr-none": old["server_conn"]["source_address"] = None
+        elif t == "no-request": old["request"] = None
+        elif t == "bytes-keys": old = _bytes_keys(old)
+        elif t == "bytes-keys-bad":
+            old = _bytes_keys(old); old[b"id"] = b"\xff\xfe"
+        elif t == "dup-key":
+            old = _bytes_keys(old); old["marked"] = True; old["type"] = "http"
+        wire = tnetstring.dumps(old)
+        return tnetstring.loads(wire), wire
 
     def _conv_input(self, case):
         """the state as format `v` stored it (inverse converters from a current state), as read back from its tnetstring"""
@@ -734,6 +828,16 @@ class Check(PropertyCheck):
                     hx = [h for n, h, g in obs["hosts"] if n == "server_conn.address"][0]
                     if hx is not None and obs["hosts"][-1][2] != ref_backslash_utf8(bytes.fromhex(hx)):
                         fails.append(f"converter 18: sni=True with address host {hx} became sni {obs['hosts'][-1][2]!r}")
+        elif k == "convt":
+            # tuple_writes_next_version, asked of the real converters; the py2-era tweaks with undecodable text only feed the tie
+            want = {(0, 17): [0, 18], (0, 18): [0, 19], (0, 19): [1, 0, 0], (1, 0): [2, 0, 0], (2, 0): [3, 0, 0], (3, 0): 4}[tuple(case["v"])]
+            if obs["out"] is None:
+                if case.get("tweak") not in ("bytes-keys-bad", "addr-none", "no-request"):
+                    fails.append(f"converter {case['v']} raised on a state of its own format: {obs['exc']}")
+            else:
+                if obs["version"] != want: fails.append(f"converter {case['v']} wrote version {obs['version']}, expected {want}")
+                if tuple(case["v"]) in ((0, 17), (0, 18), (0, 19)) and not obs["str_keys"]:
+                    fails.append(f"converter {case['v']} left a bytes key at top level")
         elif k == "wsseq":
             # an old recording keeps a websocket connection as a handshake flow plus a message flow naming it: loaded, the
             # messages belong to THAT handshake flow (expectation computed from the case's roles/ids alone)
@@ -795,6 +899,10 @@ class Check(PropertyCheck):
             try: _, wire = self._conv_input(case)
             except Skip: return None
             return ["conv %d %s" % (case["v"], wire.hex() or "-")]
+        if case["kind"] == "convt":
+            try: _, wire = self._convt_input(case)
+            except Skip: return None
+            return ["convt %d %d %s" % (case["v"][0], case["v"][1], wire.hex() or "-")]
         if case["kind"] in ("wsseq", "idseq"):
             try: recs = self._ws_records(case) if case["kind"] == "wsseq" else self._id_records(case)
             except Skip: return None
@@ -807,7 +915,7 @@ class Check(PropertyCheck):
     def model_obs(self, case, replies):
         if case["kind"] == "future": return replies[0]
         if case["kind"] == "downgrade": return replies
-        if case["kind"] == "conv": return replies[0]
+        if case["kind"] in ("conv", "convt"): return replies[0]
         if case["kind"] in ("wsseq", "idseq"):
             out = []
             for r in replies[1:]:
@@ -826,7 +934,7 @@ class Check(PropertyCheck):
             return "ok" if (known and obs["migrate"] == "ok") else {"update": "errUpdate", "unknown": "errUnknown", "ok": "ok"}[obs["migrate"]]
         if case["kind"] == "downgrade":
             return ["ok", str(version.FLOW_FORMAT_VERSION - case["to"])] if "error" not in obs else ["err", "?"]
-        if case["kind"] == "conv":
+        if case["kind"] in ("conv", "convt"):
             return "none" if obs["out"] is None else "ok " + obs["out"]
         if case["kind"] == "wsseq":
             return ["none" if o["out"] is None else "ok %s %d" % (o["out"], o["tbl"]) for o in obs["steps"]]
@@ -848,6 +956,7 @@ class Check(PropertyCheck):
         if case["kind"] == "future": return ("future", str(case["version"]))
         if case["kind"] == "conv": return ("conv", case["v"], case.get("tweak"), case.get("mode"), digest(case["state"]))
         if case["kind"] in ("wsseq", "idseq"): return (case["kind"], json.dumps(case["recs"], sort_keys=True), digest(case["state"]))
+        if case["kind"] == "convt": return ("convt", tuple(case["v"]), case.get("tweak"), digest(case["state"]))
         return (case["kind"], case.get("to"), case.get("mode"), case.get("variant"), digest(case["state"]))
 
     def branches(self, case, obs):
@@ -855,6 +964,7 @@ class Check(PropertyCheck):
         if case["kind"] == "dumpperm": return ["dumpperm:" + os.path.basename(case["file"])]
         if case["kind"] == "dumpsplit": return ["dumpsplit:" + os.path.basename(case["file"]) + (":between" if case["between"] else "")]
         if case["kind"] == "conv": return ["conv:v%d" % case["v"], "conv-tweak:%s" % case.get("tweak")]
+        if case["kind"] == "convt": return ["convt:%d.%d" % tuple(case["v"]), "convt-tweak:%s" % case.get("tweak")]
         if case["kind"] == "wsseq": return ["wsseq"] + sorted({"wsseq:" + r["role"] for r in case["recs"]})
         if case["kind"] == "idseq": return ["idseq"] + (["idseq:via"] if any(r["via"] is not None for r in case["recs"]) else [])
         return [case["kind"] + (":v%d" % case["to"] if case["kind"] == "downgrade" else "")]
